@@ -33,6 +33,7 @@ inductive Res
   | noresult             -- NoResultError
   | reentry              -- ReentryError
   | stalejunk            -- StaleJunkError
+  | rejected             -- `reactor.callLater(timeout, …)` raised (a timeout the reactor does not accept)
 deriving DecidableEq, Repr, Inhabited
 
 /-- label of a delayed call: the spinner's own timeout call or the n-th call of the scenario -/
@@ -65,6 +66,7 @@ structure Spinner where
   spinning : Bool := false
   tcall : TState := .unset
   junk : List Junk := []
+  saved : List Nat := []           -- `_saved_signals`: the handlers found by the last `_save_signals()` ([] = none saved)
 deriving Repr
 
 /-- reactor + process state + spinner + the user's state -/
